@@ -249,8 +249,14 @@ def child_result_shape(form: int, failed: bool, pending: bool) -> bool:
         return r.get("Error") == "Boom" and r.get("Cause") == "why" and r.get("Status") == "FAILED"
     want_out = {"o": 2} if form == 1 else '{"o": 2}'
     want_in = {"i": 1} if form == 1 else '{"i": 1}'
-    return (r.get("Output") == want_out and r.get("Input") == want_in and r.get("Status") == "SUCCEEDED" and r.get("Executionarn") == child
-            or (r.get("Output") == want_out and r.get("Input") == want_in and r.get("Status") == "SUCCEEDED" and r.get("ExecutionArn") == child))
+    # the documented names (Step Functions "Run a job" result / DescribeExecution in PascalCase)
+    documented = {"executionArn": "ExecutionArn", "input": "Input", "name": "Name", "output": "Output", "startDate": "StartDate",
+                  "stateMachineArn": "StateMachineArn", "status": "Status", "stopDate": "StopDate", "error": "Error", "cause": "Cause"}
+    if set(r) != set(documented[k] for k in detail):
+        return False
+    return (r.get("Output") == want_out and r.get("Input") == want_in and r.get("Status") == "SUCCEEDED" and r.get("ExecutionArn") == child
+            and r.get("StateMachineArn") == detail["stateMachineArn"] and r.get("Name") == detail["name"]
+            and r.get("StartDate") == detail["startDate"] and r.get("StopDate") == detail["stopDate"])
 
 
 FORMS = ["startExecution", "startExecution.sync", "startExecution.sync:2", "startExecution.waitForTaskToken", "sfn:startSyncExecution"]
@@ -524,3 +530,46 @@ def grandchild_cancellation(leaf: int, c0: int, c1: int, c2: int, c3: int, c4: i
     ensures: _ == ""
     """
     return grandchild_sync({"C15", "C02", "C03"}, leaf, c0, c1, c2, c3, c4, c5)
+
+
+def cancelled_child_with_fanout(which, ckind: int, c0: int, c1: int, c2: int, c3: int, c4: int, c5: int, c6: int, c7: int):
+    """Parent = Parallel[ Task .sync:2 child | Task work (fails) ]; the child's top-level state is a Parallel of two
+    Tasks (ckind 0), a Map over two items (ckind 1) or a plain Task (ckind 2) whose workers never reply.  When `work`
+    fails the parent, the child's Tasks are cancelled and the child execution must itself reach a terminal status."""
+    ckind = stubs.cint(ckind, 0, 2)
+    leaf = scn.task("never", End=True)
+    if ckind == 0:
+        cs = {"Type": "Parallel", "End": True, "Branches": [{"StartAt": "K1", "States": {"K1": leaf}}, {"StartAt": "K2", "States": {"K2": leaf}}]}
+    elif ckind == 1:
+        cs = {"Type": "Map", "ItemsPath": "$.items", "End": True, "Iterator": {"StartAt": "K1", "States": {"K1": leaf}}}
+    else:
+        cs = leaf
+    child = {"StartAt": "CS", "States": {"CS": cs}}
+    sync = {"Type": "Task", "Resource": "arn:aws:states:local::states:" + FORMS[2], "End": True,
+            "Parameters": {"StateMachineArn": "arn:aws:states:local:0123456789:stateMachine:child", "Input": {"items": [1, 2]}}}
+    asl = {"StartAt": "P", "States": {"P": {"Type": "Parallel", "End": True, "Branches": [
+        {"StartAt": "S", "States": {"S": sync}}, {"StartAt": "W", "States": {"W": scn.task("work", End=True)}}]}}}
+
+    def chk(run, inst, mon):
+        per = mon.per_exec()
+        kids = [a for a in per if ":execution:child:" in a]
+        parents = [a for a in per if ":execution:m:" in a]
+        if len(kids) != 1 or len(parents) != 1:
+            return "C15 executions %s" % sorted(per)
+        if s2.result_of(parents[0]) != ("FAILED", "Boom"):
+            return "C15 parent outcome %r" % (s2.result_of(parents[0]),)
+        k = s2.result_of(kids[0])
+        if k[0] != "FAILED":
+            return "C02/C15 the cancelled child execution did not reach a terminal status: %r" % (k,)
+        return ""
+    return s2.run_scenario(asl, {"x": 1}, [c0, c1, c2, c3, c4, c5, c6, c7], {"never": lambda req: None, "work": scn.worker(True, "Boom", "work")},
+                           which, "STANDARD", None, children=[("child", child, "STANDARD")], extra_check=chk, max_steps=200, fast=True)
+
+
+@condition(timeout={"quick": 300, "thorough": 900}, functions=scn.ENGINE_FUNCS + ["TaskDispatcher.cancel_task (StepFunction recursion)", "handle_terminal_state (Task.Terminated at the top level of a child)"])
+def cancelled_child_terminates(ckind: int, c0: int, c1: int, c2: int, c3: int, c4: int, c5: int, c6: int, c7: int) -> str:
+    """
+    requires: 0 <= ckind < 3
+    ensures: _ == ""
+    """
+    return cancelled_child_with_fanout({"C15", "C02", "C03"}, ckind, c0, c1, c2, c3, c4, c5, c6, c7)
